@@ -439,6 +439,18 @@ func (g *genState) fillPacket(k *Packet, label string, refs []string) {
 				// never between a length field and ... anywhere is fine
 			}
 			out = insert(out, pos, sf)
+			// sometimes a second checksum field of another width (hence another algorithm name)
+			if len(ts) > 1 && !cfg.avoid("sum:multi") && rapid.IntRange(0, 3).Draw(t, label+"_sum2") == 0 {
+				var ts2 []string
+				for _, u := range ts {
+					if u != sf.Type {
+						ts2 = append(ts2, u)
+					}
+				}
+				sf2 := &Field{Kind: KSum, Name: g.fname(label + "_sum2"), Type: rapid.SampledFrom(ts2).Draw(t, label+"_sum2type"), AttrPrefixed: rapid.Bool().Draw(t, label+"_sum2pre")}
+				sf2.Alg = "CK" + strings.ToUpper(sf2.Type)
+				out = insert(out, rapid.IntRange(0, len(out)).Draw(t, label+"_sum2pos"), sf2)
+			}
 		}
 	}
 	for _, f := range out {
@@ -692,7 +704,7 @@ func (g *genState) matchFields(label string, refs []string) (*Field, *Field) {
 func genKeyInt(t *rapid.T, typ, label string) uint64 {
 	// keys are written as unsigned decimal literals; signed key types only get non-negative keys
 	hi := map[string]uint64{"u8": 255, "i8": 127, "u16": 65535, "i16": 32767, "u32": 4294967295, "i32": 2147483647,
-		"u64": 1<<63 - 1, "i64": 1<<63 - 1}[typ]
+		"u64": 1<<64 - 1, "i64": 1<<63 - 1}[typ]
 	if rapid.IntRange(0, 3).Draw(t, label+"_big") == 0 {
 		return rapid.SampledFrom([]uint64{0, hi, hi - 1, hi / 2}).Draw(t, label+"_kb")
 	}
